@@ -1,5 +1,5 @@
 (* Properties/C15.v — every regressor returns the least-squares optimum and its own fit statistics.
-   Statements only; every proof is `exact` of a lemma of Proofs/Regress.v.  All statements are about the
+   Statements only; every proof is `exact` of a lemma of Proofs/Regress.v (FLOAT block at the end: Proofs/RegressFloat.v).  All statements but the FLOAT block are about the
    R instance of the model (exact arithmetic); rounding (accuracy up to the moment-matrix condition, the
    rounding term added to the proved contraction bound of gradient descent) is measured by the correspondence check and
    the exact oracle.
@@ -227,3 +227,82 @@ Proof. exact Proofs.Regress.ex_gd_hyp. Qed.
 Example c15_nonvacuous : length [0; 1; 2] = length [1; 3; 5] /\
   INR (length [0; 1; 2]) * SumL (fun t => t ^ 2) [0; 1; 2] - Rlsum [0; 1; 2] * Rlsum [0; 1; 2] <> 0.
 Proof. exact Proofs.Regress.ex_ls_hyp. Qed.
+
+(* ======================================================================================== *)
+(* FLOAT block (binary64, the instance that is extracted and run) — Proofs/RegressFloat.v.
+   COVERED: the solve inside PolynomialRegression::fit.  If the fit returns, the returned coefficients c
+   (exactly order+1 of them) satisfy, in every row s i of the normal equations (M, r) AS THE CODE BUILT THEM IN
+   FLOATS (M = moment_matrix order x, r = moment_rhs order x y, both computed in binary64),
+     |sum_k M_(s i)k c_k - r_(s i)| <= (g_n + g_n (1 + g_(n+1)) + g_(n+1)) * sum_j sum_k |L_ij| |U_jk| |c_k|,
+   n = order + 1 (written S order), g_m = (1+2^-53)^m - 1, under the per-operation no-overflow/no-underflow
+   hypotheses of c08_ge_float_residual instantiated at (M, r, poly_tol), all checkable by computation.
+   NOT COVERED: the rounding of the moment sums themselves relative to the exact moments of the data, and the
+   conditioning of the normal equations (a small residual is not a small coefficient error); the statistics
+   (std_err, r2).  The line fit uses closed formulas and gradient descent solves no system: no float theorem here. *)
+From Coq Require Import Floats.
+From Flocq Require Import Core BinarySingleNaN PrimFloat.
+From SV Require Import Proofs.LU Proofs.SubstFloat Proofs.PLUFloat Proofs.GaussFloat Proofs.SolveFloat Proofs.RegressFloat.
+
+Theorem c15_poly_float_normal_residual :
+  forall (order : nat) (x y : list PrimFloat.float) (m : lmodel PrimFloat.float),
+  poly_fit order x y = Ok m ->
+  let n := S order in
+  let M := moment_matrix order x in
+  let r := moment_rhs order x y in
+  let c := vec_of_list (coefs m) in
+  let s := ge_perm n poly_tol M r in
+  let L := ge_L n poly_tol M r in
+  let U := ge_U n poly_tol M r in
+  let w := ge_y n poly_tol M r in
+  (forall i k, (i < n)%nat -> (k < n)%nat -> plu_entry_ok (fun p q => M (s p) q) L U i k) ->
+  (forall i, (i < n)%nat -> ge_rhs_ok (fun p => r (s p)) L w i) ->
+  (forall i, (i < n)%nat -> back_row_ok (ge_W n poly_tol M r) n w c i) ->
+  length (coefs m) = n /\
+  forall i, (i < n)%nat ->
+    is_finite (Prim2B (c i)) = true /\
+    Rabs (msum 0 n (fun k => B2R (Prim2B (M (s i) k)) * B2R (Prim2B (c k))) - B2R (Prim2B (r (s i))))
+    <= (((1 + bpow radix2 (-53)) ^ n - 1)
+        + ((1 + bpow radix2 (-53)) ^ n - 1) * (1 + ((1 + bpow radix2 (-53)) ^ (n + 1) - 1))
+        + ((1 + bpow radix2 (-53)) ^ (n + 1) - 1))
+       * msum 0 n (fun j => msum 0 n (fun k =>
+           Rabs (B2R (Prim2B (L i j))) * Rabs (B2R (Prim2B (U j k))) * Rabs (B2R (Prim2B (c k))))).
+Proof. exact Proofs.RegressFloat.poly_regression_float_normal_residual. Qed.
+Check c15_poly_float_normal_residual :
+  forall (order : nat) (x y : list PrimFloat.float) (m : lmodel PrimFloat.float),
+  poly_fit order x y = Ok m ->
+  let n := S order in
+  let M := moment_matrix order x in
+  let r := moment_rhs order x y in
+  let c := vec_of_list (coefs m) in
+  let s := ge_perm n poly_tol M r in
+  let L := ge_L n poly_tol M r in
+  let U := ge_U n poly_tol M r in
+  let w := ge_y n poly_tol M r in
+  (forall i k, (i < n)%nat -> (k < n)%nat -> plu_entry_ok (fun p q => M (s p) q) L U i k) ->
+  (forall i, (i < n)%nat -> ge_rhs_ok (fun p => r (s p)) L w i) ->
+  (forall i, (i < n)%nat -> back_row_ok (ge_W n poly_tol M r) n w c i) ->
+  length (coefs m) = n /\
+  forall i, (i < n)%nat ->
+    is_finite (Prim2B (c i)) = true /\
+    Rabs (msum 0 n (fun k => B2R (Prim2B (M (s i) k)) * B2R (Prim2B (c k))) - B2R (Prim2B (r (s i))))
+    <= (((1 + bpow radix2 (-53)) ^ n - 1)
+        + ((1 + bpow radix2 (-53)) ^ n - 1) * (1 + ((1 + bpow radix2 (-53)) ^ (n + 1) - 1))
+        + ((1 + bpow radix2 (-53)) ^ (n + 1) - 1))
+       * msum 0 n (fun j => msum 0 n (fun k =>
+           Rabs (B2R (Prim2B (L i j))) * Rabs (B2R (Prim2B (U j k))) * Rabs (B2R (Prim2B (c k))))).
+Print Assumptions c15_poly_float_normal_residual.
+
+(* non-vacuity, by computation: x = [0,1,2,3], y = [1,3,7,13] (y = x^2 + x + 1), order 2: the binary64 fit returns
+   and ALL hypotheses of c15_poly_float_normal_residual hold together *)
+Example c15_float_nonvacuous_poly_residual : exists m, poly_fit 2 ex_poly_x ex_poly_y = Ok m /\
+  let M := moment_matrix 2 ex_poly_x in
+  let r := moment_rhs 2 ex_poly_x ex_poly_y in
+  let c := vec_of_list (coefs m) in
+  let s := ge_perm 3 poly_tol M r in
+  let L := ge_L 3 poly_tol M r in
+  let U := ge_U 3 poly_tol M r in
+  let w := ge_y 3 poly_tol M r in
+  (forall i k, (i < 3)%nat -> (k < 3)%nat -> plu_entry_ok (fun p q => M (s p) q) L U i k) /\
+  (forall i, (i < 3)%nat -> ge_rhs_ok (fun p => r (s p)) L w i) /\
+  (forall i, (i < 3)%nat -> back_row_ok (ge_W 3 poly_tol M r) 3 w c i).
+Proof. exact Proofs.RegressFloat.ex_poly_float_residual_hyps. Qed.
